@@ -8,6 +8,7 @@ import (
 	"encoding/hex"
 	"encoding/json"
 	"fmt"
+	"math/big"
 	"math/rand"
 	"os"
 	"runtime/debug"
@@ -167,3 +168,42 @@ func (b *BytesReader) Read(p []byte) (int, error) {
 	}
 	return len(p), nil
 }
+
+// ---- base-4096 little-endian digit arrays (spec/lib/BigNat.tla)
+
+// Digits converts a non-negative big integer to base-4096 little-endian digits.
+func Digits(x *big.Int) []int {
+	if x.Sign() < 0 {
+		Die("Digits of a negative number")
+	}
+	out := []int{}
+	t := new(big.Int).Set(x)
+	m := big.NewInt(4095)
+	for t.Sign() > 0 {
+		out = append(out, int(new(big.Int).And(t, m).Int64()))
+		t.Rsh(t, 12)
+	}
+	return out
+}
+
+// FromLE / FromBE read byte strings as integers.
+func FromLE(b []byte) *big.Int {
+	r := make([]byte, len(b))
+	for i := range b {
+		r[len(b)-1-i] = b[i]
+	}
+	return new(big.Int).SetBytes(r)
+}
+func FromBE(b []byte) *big.Int { return new(big.Int).SetBytes(b) }
+
+// ToLE writes x as n little-endian bytes (x must fit).
+func ToLE(x *big.Int, n int) []byte {
+	b := x.FillBytes(make([]byte, n))
+	for i, j := 0, n-1; i < j; i, j = i+1, j-1 {
+		b[i], b[j] = b[j], b[i]
+	}
+	return b
+}
+
+// Quot returns floor(a / p) as digits: the untrusted hint TLC uses to check a congruence.
+func Quot(a, p *big.Int) []int { return Digits(new(big.Int).Div(a, p)) }
